@@ -1,4 +1,5 @@
 import WindVerif.Model.Generic
+import WindVerif.Model.GenericK
 import WindVerif.Drv.Common
 import WindVerif.Drv.Sorted
 namespace WindVerif.Drv
@@ -16,6 +17,17 @@ def showLists (ls : List (List Int)) : String := joinWith ";" (ls.map showInts)
 
 def showCombos (l : List (List Nat × Nat)) : String :=
   joinWith ";" (l.map (fun p => joinWith "." (p.1.map toString) ++ ":" ++ toString p.2))
+
+/-- the key families of `combosK <kind> s1 s2 …` (on index combinations over the scores) -/
+def keyOfKind (kind : String) (scores : List Nat) : Option (List Nat → Nat) :=
+  match kind with
+  | "sum" => some (keySum scores)
+  | "max" => some (keyMax scores)
+  | "spread" => some (keySpread scores)
+  | "len" => some keyLen
+  | "const" => some (keyConst 0)
+  | "distinct" => some (keyDistinct scores)
+  | _ => none
 
 def genericStep (_ : Unit) (ws : List String) : Unit × String :=
   let r : String := match ws with
@@ -72,6 +84,11 @@ def genericStep (_ : Unit) (ws : List String) : Unit × String :=
       | _, _, _ => "bad-op")
     | "combos" :: ws => (match parseNats ws with
       | some sc => "ret " ++ showCombos (sortedCombinations sc)
+      | none => "bad-op")
+    | "combosK" :: kind :: ws => (match parseNats ws with
+      | some sc => (match keyOfKind kind sc with
+        | some key => "ret " ++ showCombos (sortedCombinationsK (fun i => i) key sc.length)
+        | none => "bad-op")
       | none => "bad-op")
     | "combosE" :: ws => (match parseNats ws with
       | some es => "ret " ++ showCombos (sortedCombinationsE es)
